@@ -100,6 +100,23 @@ def _(self, key):
     ensures(self.substore.meta == mapdel(old(self.substore.meta), strip(self.prefix, key)), "metadata-removed-at-the-stripped-key")
 
 
+@contract("liquer.store.KeyTranslatingStore.store_metadata", params=dict(self=KT, key=Str, metadata=Meta))
+def _(self, key, metadata):
+    requires(clean(key) and at_or_below(self.prefix, key) and key != self.prefix, "a-clean-key-below-the-mount")
+    modifies(self.substore.meta)
+    ensures(mapdom(self.substore.meta) == setadd(mapdom(old(self.substore.meta)), strip(self.prefix, key)), "metadata-recorded-at-the-stripped-key")
+    ensures(self.substore.meta == mapset(old(self.substore.meta), strip(self.prefix, key), mapget(self.substore.meta, strip(self.prefix, key))),
+            "other-metadata-unchanged")
+    ensures(self.substore.data == old(self.substore.data) and self.substore.dirs == old(self.substore.dirs), "no-data-or-directory-changes")
+
+
+@contract("liquer.store.KeyTranslatingStore.makedir", params=dict(self=KT, key=Str))
+def _(self, key):
+    requires(clean(key) and at_or_below(self.prefix, key) and key != self.prefix and not has(self.substore.data, strip(self.prefix, key)), "a-clean-key-below-the-mount-that-is-not-a-file")
+    modifies(self.substore.dirs)
+    ensures(self.substore.dirs == union(old(self.substore.dirs), anc(strip(self.prefix, key))), "the-stripped-key-and-its-ancestors-become-directories")
+
+
 @contract("liquer.store.KeyTranslatingStore.listdir", params=dict(self=KT, key=Str), returns=Opt(KeyList))
 def _(self, key):
     raises(KeyNotSupportedStoreException, when=not at_or_below(self.prefix, key), label="outside-the-mount")
@@ -116,6 +133,7 @@ def _(self, key):
 prop("C14", fucs=["liquer.store.PrefixStore.translate_key", "liquer.store.PrefixStore.contains", "liquer.store.PrefixStore.is_dir",
                   "liquer.store.KeyTranslatingStore.get_bytes", "liquer.store.KeyTranslatingStore.store",
                   "liquer.store.KeyTranslatingStore.remove", "liquer.store.KeyTranslatingStore.listdir",
+                  "liquer.store.KeyTranslatingStore.store_metadata", "liquer.store.KeyTranslatingStore.makedir",
                   "liquer.store.KeyTranslatingStore.to_root_key", "liquer.store.MountPointStore.route_to", "liquer.store.MountPointStore._leads_to_mount",
                   "liquer.store.MountPointStore.is_dir", "liquer.store.MountPointStore.contains"],
      lemmas=["strip_unstrip", "unstrip_strip"],
